@@ -156,6 +156,7 @@ func verifyFunc(w *World, key string) *FuncResult {
 		if len(results) == 1 {
 			post["result"] = results[0]
 		}
+		g.applyGhostSets(fc, exit, g.entry, post, pkgPath)
 		for i, c := range fc.Ensures {
 			env := &Env{g: g, st: exit, old: g.entry, vars: post, pkgPath: pkgPath, fr: fr, inBody: true}
 			t := env.evalBool(c.E)
